@@ -892,7 +892,7 @@ func ruleBlockChecksumCoverage(c *Ctx, r *Reporter) {
 				if !ok {
 					return false
 				}
-				if data == ssa.Value(sum) {
+				if data == ssa.Value(sum) || holdsOnly(data, sum) {
 					wroteSum = true
 					return false
 				}
@@ -1255,4 +1255,527 @@ func ruleReportedSeqMonotone(c *Ctx, r *Reporter) {
 	if n == 0 {
 		r.Undecided("replication.Primary.lastSyncedSeq", "-", "no store found")
 	}
+}
+
+// ruleManifestEntriesValidated: Manifest.Save validates the CURRENT configuration but writes ALL entries, and
+// LoadManifest takes the LAST entry for the current one. An entry may therefore join Manifest.Entries only behind a
+// successful validation of its configuration: every store that grows the slice (append) outside the loader is on the
+// success edge of a validator call.
+func ruleManifestEntriesValidated(c *Ctx, r *Reporter) {
+	r.Rule("entries-grow-only-with-validated-configs", 1)
+	core, validators := configValidators(c)
+	entries := c.Field("pkg/config", "Manifest", "Entries")
+	if core == nil || entries == nil {
+		r.Unresolved("config validator / config.Manifest.Entries", "not found")
+		return
+	}
+	validated := callOKFact(c, func(call *ssa.Call) bool {
+		for _, f := range c.Callees(call) {
+			if validators[f] {
+				return true
+			}
+		}
+		return false
+	})
+	n := 0
+	for _, fn := range c.KevoFns {
+		if pkgOf(fn) != "pkg/config" {
+			continue
+		}
+		AllInstrs(fn, false, func(_ *ssa.Function, ins ssa.Instruction) {
+			st, ok := ins.(*ssa.Store)
+			if !ok || fieldVarOf(st.Addr) != entries {
+				return
+			}
+			call, isCall := st.Val.(*ssa.Call)
+			if !isCall {
+				return
+			}
+			if b, ok := call.Call.Value.(*ssa.Builtin); !ok || b.Name() != "append" {
+				return
+			}
+			n++
+			r.Check(GuardedBy(st.Block(), validated), FnName(fn)+":append(Entries)", c.InsPos(ins), "an entry is appended only behind a successful validation",
+				"an entry joins Manifest.Entries on a path where its configuration has not been validated: Save validates only the current entry but writes them all, and the loader takes the last one for current — a rejected update reaches the disk and the database cannot be reopened")
+		})
+	}
+	if n == 0 {
+		r.Undecided("config.Manifest.Entries", "-", "no append to Manifest.Entries found")
+	}
+}
+
+// ruleNodeInfoReadOnlyFromEngine: the node-information call must report the engine's actual mode (clients use it to
+// decide where writes go). The read-only result of Manager.GetNodeInfo resolves, on every path, to the result of
+// engine.IsReadOnly(); the constant false is accepted only where there is no engine (or no configuration) to ask; any other
+// source — a constant true, the configured role — can disagree with what the engine does.
+func ruleNodeInfoReadOnlyFromEngine(c *Ctx, r *Reporter) {
+	r.Rule("node-info-reports-the-engine-mode", 1)
+	fn := c.Func("pkg/replication", "Manager", "GetNodeInfo")
+	engF := c.Field("pkg/replication", "Manager", "engine")
+	cfgF := c.Field("pkg/replication", "Manager", "config")
+	if fn == nil || engF == nil || cfgF == nil {
+		r.Unresolved("replication.Manager.GetNodeInfo / Manager.engine / Manager.config", "not found")
+		return
+	}
+	cons := "replication.Manager.GetNodeInfo:read-only"
+	isModeCall := func(v ssa.Value) bool {
+		call, ok := v.(*ssa.Call)
+		if !ok {
+			return false
+		}
+		if call.Call.IsInvoke() {
+			return call.Call.Method.Name() == "IsReadOnly" && isLoadOfField(call.Call.Value, engF)
+		}
+		return false
+	}
+	noOne := func(cond ssa.Value) (bool, bool) { // "there is no engine / no configuration"
+		v, trueNonNil, ok := nilTest(cond)
+		if !ok || !(isLoadOfField(v, engF) || isLoadOfField(v, cfgF)) {
+			return false, false
+		}
+		return !trueNonNil, trueNonNil
+	}
+	bad := ""
+	nCalls := 0
+	var visit func(v ssa.Value, at *ssa.BasicBlock, pred *ssa.BasicBlock, seen map[ssa.Value]bool)
+	visit = func(v ssa.Value, at, pred *ssa.BasicBlock, seen map[ssa.Value]bool) {
+		if seen[v] && pred == nil {
+			return
+		}
+		seen[v] = true
+		switch x := v.(type) {
+		case *ssa.Phi:
+			for i, e := range x.Edges {
+				visit(e, x.Block(), x.Block().Preds[i], seen)
+			}
+		case *ssa.Const:
+			if b, isB := constBool(x); isB && !b {
+				// false: only where nobody can be asked
+				okEdge := GuardedBy(at, noOne)
+				if pred != nil {
+					if len(pred.Instrs) > 0 {
+						if iff, isIf := pred.Instrs[len(pred.Instrs)-1].(*ssa.If); isIf {
+							t, f := noOne(iff.Cond)
+							for i, s := range pred.Succs {
+								if s == at && ((i == 0 && t) || (i == 1 && f)) {
+									okEdge = true
+								}
+							}
+						}
+					}
+					if GuardedBy(pred, noOne) {
+						okEdge = true
+					}
+				}
+				if !okEdge {
+					bad = "the read-only result is the constant false on a path where an engine could have been asked"
+				}
+				return
+			}
+			bad = "the read-only result is the constant true on some path: it is reported without asking the engine, so a node whose engine accepts client writes (flag not forced, or setting it failed) still claims to be read-only"
+		default:
+			if isModeCall(v) {
+				nCalls++
+				return
+			}
+			bad = "the read-only result comes from " + Path(v) + ", not from engine.IsReadOnly()"
+		}
+	}
+	for _, ret := range Returns(fn) {
+		if len(ret.Results) < 5 {
+			r.Undecided(cons, c.FnPos(fn), "unexpected result arity")
+			return
+		}
+		visit(ReturnValue(ret, 4), ret.Block(), nil, map[ssa.Value]bool{})
+	}
+	if bad == "" && nCalls == 0 {
+		bad = "engine.IsReadOnly() is never consulted"
+	}
+	r.Check(bad == "", cons, c.FnPos(fn), "resolves to engine.IsReadOnly() (false only without engine or configuration)", bad)
+}
+
+// ruleAccessorsReturnCopies: which API can hand out a mutable reference to stored bytes. The read accessors of the
+// memtable (MemTable.Get, Iterator.Key, Iterator.Value) and of the transaction buffer (Buffer.Get) return nil or freshly
+// allocated memory on every path — never the slice held by an entry / a buffered operation: a caller that writes into
+// its result (scratch-buffer reuse) would otherwise rewrite a key inside the sorted structure, change an immutable
+// table, or change the value a transaction is about to commit.
+func ruleAccessorsReturnCopies(c *Ctx, r *Reporter) {
+	var specs [][3]string
+	switch r.Property {
+	case "C03":
+		specs = [][3]string{{"pkg/transaction", "Buffer", "Get"}}
+	default:
+		specs = [][3]string{{"pkg/memtable", "MemTable", "Get"}, {"pkg/memtable", "Iterator", "Key"}, {"pkg/memtable", "Iterator", "Value"}, {"pkg/transaction", "Buffer", "Get"}}
+	}
+	r.Rule("accessors-return-copies", len(specs))
+	var fresh func(v ssa.Value, d int) bool
+	fresh = func(v ssa.Value, d int) bool {
+		if d > 4 {
+			return false
+		}
+		if isFreshBytes(v, 0) {
+			return true
+		}
+		switch x := v.(type) {
+		case *ssa.Phi:
+			for _, e := range x.Edges {
+				if !fresh(e, d+1) {
+					return false
+				}
+			}
+			return true
+		case *ssa.Call:
+			// a copier helper of the module: every return is fresh
+			h := x.Call.StaticCallee()
+			if h == nil || len(h.Blocks) == 0 || !c.InKevo(h) {
+				return false
+			}
+			n := 0
+			for _, ret := range Returns(h) {
+				if len(ret.Results) == 0 || !fresh(ReturnValue(ret, 0), d+1) {
+					return false
+				}
+				n++
+			}
+			return n > 0
+		}
+		return false
+	}
+	for _, sp := range specs {
+		fn := c.Func(sp[0], sp[1], sp[2])
+		cons := strings.TrimPrefix(sp[0], "pkg/") + "." + sp[1] + "." + sp[2]
+		if fn == nil {
+			r.Unresolved(cons, "not found")
+			continue
+		}
+		bad := ""
+		var pos ssa.Instruction
+		n := 0
+		for _, ret := range Returns(fn) {
+			if len(ret.Results) == 0 {
+				continue
+			}
+			n++
+			v := ReturnValue(ret, 0)
+			if !fresh(v, 0) {
+				bad = Path(v)
+				pos = ret
+			}
+		}
+		if n == 0 {
+			r.Undecided(cons, c.FnPos(fn), "no return with a result")
+			continue
+		}
+		if pos == nil {
+			pos = Returns(fn)[0]
+		}
+		r.Check(bad == "", cons, c.InsPos(pos), fmt.Sprintf("every one of %d exits returns nil or freshly allocated bytes", n),
+			"an exit returns "+bad+", memory that belongs to the stored entry / buffered operation: a caller writing into its result changes the stored key or value (an immutable table changes; a key rewritten in place breaks the sort order; a buffered value changes after it was captured)")
+	}
+}
+
+// holdsOnly: data is arr[:] of a local 8-byte array whose only content is PutUint64(arr[:], sum).
+func holdsOnly(data ssa.Value, sum *ssa.Call) bool {
+	if fixedArraySliceLen(data) != 8 {
+		return false
+	}
+	al := data.(*ssa.Slice).X.(*ssa.Alloc)
+	filled := false
+	for _, ref := range *al.Referrers() {
+		sl, ok := ref.(*ssa.Slice)
+		if !ok {
+			continue
+		}
+		for _, use := range *sl.Referrers() {
+			call, ok := use.(*ssa.Call)
+			if !ok {
+				continue
+			}
+			if strings.HasSuffix(staticName(call), "PutUint64") && len(call.Call.Args) == 3 && call.Call.Args[2] == ssa.Value(sum) {
+				filled = true
+			}
+		}
+	}
+	return filled
+}
+
+// ruleCompactRangeClosed: CompactRange moves WHOLE files to the deepest level. A file left behind at a shallower level
+// must not share a key with a moved file (its older version would shadow the newer one), so the selection has to be
+// closed: the range the files are tested against grows to the keys of every selected file (FirstKey lowered only when
+// the file's is smaller, LastKey raised only when it is greater) and the search repeats until a round adds nothing.
+func ruleCompactRangeClosed(c *Ctx, r *Reporter) {
+	r.Rule("compact-range-selection-is-closed", 1)
+	fn := c.Func("pkg/compaction", "TieredCompactionStrategy", "CompactRange")
+	ov := c.Func("pkg/compaction", "SSTableInfo", "Overlaps")
+	cons := "compaction.TieredCompactionStrategy.CompactRange"
+	if fn == nil || ov == nil {
+		r.Unresolved(cons+" / SSTableInfo.Overlaps", "not found")
+		return
+	}
+	var test *ssa.Call
+	AllInstrs(fn, false, func(_ *ssa.Function, ins ssa.Instruction) {
+		if call, ok := ins.(*ssa.Call); ok && call.Call.StaticCallee() == ov {
+			test = call
+		}
+	})
+	if test == nil || len(test.Call.Args) != 2 {
+		r.Bad(cons, c.FnPos(fn), "the files to move are not selected by an overlap test against a range")
+		return
+	}
+	rng := test.Call.Args[1] // the range object (files are the receivers)
+	if _, isAlloc := rng.(*ssa.Alloc); !isAlloc {
+		rng = test.Call.Args[0]
+	}
+	// (a) widening stores inside the loops of the test
+	widened := map[string]bool{}
+	badDir := ""
+	AllInstrs(fn, false, func(_ *ssa.Function, ins ssa.Instruction) {
+		st, ok := ins.(*ssa.Store)
+		if !ok {
+			return
+		}
+		fa, ok := st.Addr.(*ssa.FieldAddr)
+		if !ok || fa.X != rng {
+			return
+		}
+		inLoop := false
+		for _, l := range GenericLoops(fn) {
+			if l.Contains(st.Block()) && l.Contains(test.Block()) {
+				inLoop = true
+			}
+		}
+		if !inLoop {
+			return
+		}
+		name := fieldName(fa)
+		wantLess := name == "FirstKey"
+		dir := func(cond ssa.Value) (bool, bool) {
+			bo, ok := cond.(*ssa.BinOp)
+			if !ok {
+				return false, false
+			}
+			x, y, op := bo.X, bo.Y, bo.Op
+			if k, isK := constInt(x); isK && k == 0 {
+				x, y = y, x
+				op = flipOp(op)
+			}
+			k, isK := constInt(y)
+			cmp, isCall := x.(*ssa.Call)
+			if !isK || k != 0 || !isCall || staticName(cmp) != "bytes.Compare" {
+				return false, false
+			}
+			a, b := cmp.Call.Args[0], cmp.Call.Args[1]
+			isCur := func(v ssa.Value) bool {
+				ld, ok := v.(*ssa.UnOp)
+				if !ok || ld.Op != token.MUL {
+					return false
+				}
+				f2, ok := ld.X.(*ssa.FieldAddr)
+				return ok && f2.X == rng && fieldName(f2) == name
+			}
+			switch {
+			case sameFieldLoad(a, st.Val) && isCur(b):
+			case sameFieldLoad(b, st.Val) && isCur(a):
+				op = flipOp(op)
+			default:
+				return false, false
+			}
+			// now: Compare(new, current) op 0
+			if wantLess {
+				return op == token.LSS, op == token.GEQ
+			}
+			return op == token.GTR, op == token.LEQ
+		}
+		g1, g2 := GuardedBy(st.Block(), dir), GuardedBy(st.Block(), callTrueFact(test))
+		if g1 && g2 {
+			widened[name] = true
+		} else {
+			badDir = "the store to the range's " + name + " at " + c.InsPos(ins) + " is not guarded by the matching comparison (lower FirstKey only for a smaller key, raise LastKey only for a greater one) on the selected path"
+		}
+	})
+	// (b) fixpoint: an enclosing loop continues on a flag that the selection path sets
+	fix := false
+	for _, l := range GenericLoops(fn) {
+		if !l.Contains(test.Block()) || len(l.Header.Instrs) == 0 {
+			continue
+		}
+		iff, ok := l.Header.Instrs[len(l.Header.Instrs)-1].(*ssa.If)
+		if !ok {
+			continue
+		}
+		ph, ok := iff.Cond.(*ssa.Phi)
+		if !ok {
+			continue
+		}
+		if flowsFromPred(ph, func(v ssa.Value) bool {
+			k, isK := v.(*ssa.Const)
+			if !isK {
+				return false
+			}
+			b, isB := constBool(k)
+			return isB && b
+		}, 0, map[ssa.Value]bool{}) {
+			fix = true
+		}
+	}
+	switch {
+	case badDir != "":
+		r.Bad(cons, c.InsPos(test), badDir)
+	case !widened["FirstKey"] || !widened["LastKey"]:
+		r.Bad(cons, c.InsPos(test), "files are selected by overlap with the requested range only; the range is not grown to the keys of the selected files: whole files move to the deepest level, so a file left behind that shares an out-of-range key with a moved newer file keeps shadowing the newer version (overwritten keys revert, deleted keys come back)")
+	case !fix:
+		r.Bad(cons, c.InsPos(test), "the range grows with the selected files but the search is not repeated until a round adds nothing: files of levels already scanned that overlap the grown range stay behind")
+	default:
+		r.OK(cons, c.InsPos(test), "the selection is closed: the range grows to every selected file's keys and the search repeats until nothing is added")
+	}
+}
+
+// callTrueFact: the fact "this boolean call returned true".
+func callTrueFact(call *ssa.Call) Fact {
+	return func(cond ssa.Value) (bool, bool) {
+		if cond == ssa.Value(call) {
+			return true, false
+		}
+		if u, ok := cond.(*ssa.UnOp); ok && u.Op == token.NOT && u.X == ssa.Value(call) {
+			return false, true
+		}
+		return false, false
+	}
+}
+
+// ruleReplicaAcceptsWhatIsSent: the primary decides what goes into a message (catch-up batches are capped by entry
+// count, not bytes); a replica that refuses a received batch because of its size refuses it again at every
+// retransmission — its position never advances and nothing behind that point replicates. In the replica's receive
+// functions no failing exit may be decided by a comparison on the size of the received payloads.
+func ruleReplicaAcceptsWhatIsSent(c *Ctx, r *Reporter) {
+	r.Rule("replica-accepts-what-the-primary-sends", 2)
+	isPayloadLen := func(v ssa.Value) bool {
+		la := lenArgOf(v)
+		return la != nil && strings.Contains(Path(la), "Payload")
+	}
+	for _, mn := range []string{"processEntriesWithoutStateTransitions", "processEntries"} {
+		fn := c.Func("pkg/replication", "Replica", mn)
+		cons := "replication.Replica." + mn
+		if fn == nil {
+			r.Unresolved(cons, "not found")
+			continue
+		}
+		sizeTest := func(cond ssa.Value) (bool, bool) {
+			bo, ok := cond.(*ssa.BinOp)
+			if !ok {
+				return false, false
+			}
+			switch bo.Op {
+			case token.LSS, token.GTR, token.LEQ, token.GEQ:
+			default:
+				return false, false
+			}
+			// an emptiness test (len(p) > 0) is not a size limit
+			for _, o := range []ssa.Value{bo.X, bo.Y} {
+				if k, isK := constInt(o); isK && k <= 1 {
+					return false, false
+				}
+			}
+			if flowsFromPred(bo.X, isPayloadLen, 0, map[ssa.Value]bool{}) || flowsFromPred(bo.Y, isPayloadLen, 0, map[ssa.Value]bool{}) {
+				return true, true // either outcome of such a test is "decided by the payload size"
+			}
+			return false, false
+		}
+		var bad ssa.Instruction
+		n := 0
+		for _, ret := range Returns(fn) {
+			if ClassifyReturn(ret) == ExitSuccess {
+				continue
+			}
+			n++
+			if GuardedBy(ret.Block(), sizeTest) {
+				bad = ret
+			}
+		}
+		if bad != nil {
+			r.Bad(cons, c.InsPos(bad), "a received batch is refused on a comparison of its payload size: the primary will send the same batch again (it caps batches by entry count, not bytes), the replica refuses it again, and its position never advances — everything behind that point never replicates")
+		} else {
+			r.OK(cons, c.FnPos(fn), fmt.Sprintf("none of the %d failing exits is decided by the size of the received payloads", n))
+		}
+	}
+}
+
+// ruleErrorStateRetries: the replica's ERROR state is the only way back to CONNECTING. handleErrorState must not park:
+// no plain channel receive outside its select, and every exit other than the select's cancellation arm passes
+// SetState(StateConnecting). (A retry budget that blocks on ctx.Done() leaves a replica that was unreachable for a while
+// permanently disconnected.)
+func ruleErrorStateRetries(c *Ctx, r *Reporter) {
+	r.Rule("error-state-always-retries", 1)
+	fn := c.Func("pkg/replication", "Replica", "handleErrorState")
+	kConn := c.Const("pkg/replication", "StateConnecting")
+	cons := "replication.Replica.handleErrorState"
+	if fn == nil || kConn == nil {
+		r.Unresolved(cons+" / StateConnecting", "not found")
+		return
+	}
+	want, _ := constantInt(kConn)
+	var sel *ssa.Select
+	var plain ssa.Instruction
+	AllInstrs(fn, false, func(_ *ssa.Function, ins ssa.Instruction) {
+		switch x := ins.(type) {
+		case *ssa.Select:
+			sel = x
+		case *ssa.UnOp:
+			if x.Op == token.ARROW {
+				plain = ins
+			}
+		}
+	})
+	if plain != nil {
+		r.Bad(cons, c.InsPos(plain), "a plain channel receive outside the back-off select: the state loop parks here (until the replica is stopped) instead of returning to CONNECTING — a replica whose primary was unreachable for a while never dials again")
+		return
+	}
+	cancelArm := -1
+	if sel != nil {
+		for i, st := range sel.States {
+			if st.Dir == types.RecvOnly && flowsFromPred(st.Chan, func(v ssa.Value) bool {
+				call, ok := v.(*ssa.Call)
+				return ok && call.Call.IsInvoke() && call.Call.Method.Name() == "Done"
+			}, 0, map[ssa.Value]bool{}) {
+				cancelArm = i
+			}
+		}
+	}
+	onCancel := func(cond ssa.Value) (bool, bool) {
+		bo, ok := cond.(*ssa.BinOp)
+		if !ok || bo.Op != token.EQL || sel == nil {
+			return false, false
+		}
+		ex, ok := bo.X.(*ssa.Extract)
+		k, isK := constInt(bo.Y)
+		if !ok || !isK || ex.Tuple != ssa.Value(sel) || ex.Index != 0 {
+			return false, false
+		}
+		return int(k) == cancelArm, false
+	}
+	isRetry := func(i ssa.Instruction) bool {
+		call, ok := i.(*ssa.Call)
+		if !ok || call.Call.StaticCallee() == nil || call.Call.StaticCallee().Name() != "SetState" || len(call.Call.Args) < 2 {
+			return false
+		}
+		k, isK := constInt(call.Call.Args[len(call.Call.Args)-1])
+		return isK && k == want
+	}
+	var exits []ssa.Instruction
+	for _, ret := range Returns(fn) {
+		if cancelArm >= 0 && GuardedBy(ret.Block(), onCancel) {
+			continue
+		}
+		exits = append(exits, ret)
+	}
+	if len(exits) == 0 {
+		r.Bad(cons, c.FnPos(fn), "no exit of the error state leads back to CONNECTING")
+		return
+	}
+	badExit, path := MustPass(fn, exits, isRetry)
+	if badExit != nil {
+		r.Bad(cons, c.InsPos(badExit), "an exit of the error state (other than cancellation) does not pass SetState(StateConnecting): the replica stays in ERROR and never dials the primary again", c.PathString(path)...)
+		return
+	}
+	r.OK(cons, c.FnPos(fn), fmt.Sprintf("%d exit(s) besides cancellation, all through SetState(StateConnecting); no plain receive", len(exits)))
 }
